@@ -607,28 +607,36 @@ def oracle_interpoff(ops, impl):
     for i, (op, line) in enumerate(zip(ops, impl)):
         d = cli.kv(op)
         o = cli.parse_out(line)
-        if o.get('rc') != '0':
-            bad.append((i, 'interpolate exited with status %s' % o.get('rc')))
-            continue
+        twod = d.get('dim', '2') == '2'
         try:
             dmesh = pyio.read_meshb(os.path.join(o['dir'], 'donor.meshb'))
             rmesh = pyio.read_meshb(os.path.join(o['dir'], 'rec.meshb'))
             ds = pyio.read_solb(os.path.join(o['dir'], 'donor.solb'))
-            rs = pyio.read_solb(os.path.join(o['dir'], 'rec.solb'))
         except Exception as ex:
-            bad.append((i, 'result files unreadable: %r' % (ex,)))
+            bad.append((i, 'input files unreadable: %r' % (ex,)))
             continue
-        if len(rs['values']) != len(rmesh['verts']) or rs['ldim'] != 3:
-            bad.append((i, 'receptor field has %d x %d entries for %d vertices, ldim 3'
-                        % (len(rs['values']), rs['ldim'], len(rmesh['verts']))))
-            continue
-        twod = d.get('dim', '2') == '2'
-        f = off_fields(d)
         s = OSess(1, twod)
         pts = [tuple(p) + (0.0,) * (3 - len(p)) for p in dmesh['verts']]
         s.dxyz[0] = pts
         s.dglob[0] = list(range(len(pts)))
         s.dcells[0] = [tuple(c[:-1]) for c in dmesh['cells']['tri' if twod else 'tet']]
+        if o.get('rc') != '0':
+            # a receptor vertex outside the donor domain may be beyond every search sphere: ref_interp_locate then gives up
+            # after 12 fuzz increases ("unable to grow fuzz"); the property only speaks about vertices inside the domain
+            if all(s.in_domain(tuple(p) + (0.0,) * (3 - len(p))) for p in rmesh['verts']):
+                bad.append((i, 'interpolate exited with status %s although every receptor vertex lies in the donor domain'
+                            % o.get('rc')))
+            continue
+        try:
+            rs = pyio.read_solb(os.path.join(o['dir'], 'rec.solb'))
+        except Exception as ex:
+            bad.append((i, 'result file unreadable: %r' % (ex,)))
+            continue
+        if len(rs['values']) != len(rmesh['verts']) or rs['ldim'] != 3:
+            bad.append((i, 'receptor field has %d x %d entries for %d vertices, ldim 3'
+                        % (len(rs['values']), rs['ldim'], len(rmesh['verts']))))
+            continue
+        f = off_fields(d)
         sc = max(max(abs(x) for x in r) for r in ds['values'])
         lo = [min(r[k] for r in ds['values']) for k in range(3)]
         hi = [max(r[k] for r in ds['values']) for k in range(3)]
